@@ -615,10 +615,62 @@ fn well_typed(k: &Krpc) -> bool {
         }
 }
 
+
+/// C04, enumerated tier: every second run is one element of the exhaustive enumeration of request
+/// histories over a small alphabet, decoded from the run index (independent of VERIF_SEED, which only
+/// varies the surroundings: addresses, ids, clock skew, latencies). Alphabet (40 symbols):
+/// put(key 0|1, seq 0|1|2, cas none|0|1, value v0|v1) and get(key 0|1, seq filter none|1), no salt,
+/// one client with a fresh valid token, loss-free in-order delivery. Order: all histories of depth <= 2
+/// with capacity 1, then with capacity 2, then depth 3 with capacity 1, then with capacity 2.
+pub const C04_ALPHABET: u64 = 40;
+
+#[derive(Clone, Copy, Debug)]
+pub enum C04Sym {
+    Put { key: usize, seq: i64, cas: Option<i64>, val: usize },
+    Get { key: usize, filter: Option<i64> },
+}
+
+pub fn c04_sym(d: u64) -> C04Sym {
+    if d < 36 {
+        C04Sym::Put { key: (d % 2) as usize, seq: ((d / 2) % 3) as i64, cas: match (d / 6) % 3 { 0 => None, 1 => Some(0), _ => Some(1) }, val: (d / 18) as usize }
+    } else {
+        let g = d - 36;
+        C04Sym::Get { key: (g % 2) as usize, filter: if g / 2 == 0 { None } else { Some(1) } }
+    }
+}
+
+/// (capacity, history) of enumeration element `e`, None beyond the enumerated space.
+pub fn c04_enumerated(e: u64) -> Option<(usize, Vec<C04Sym>)> {
+    let a = C04_ALPHABET;
+    let shallow = a + a * a; // depth 1 and 2
+    let deep = a * a * a;
+    let (cap, depth, mut idx) = if e < 2 * shallow {
+        let cap = 1 + (e / shallow) as usize;
+        let w = e % shallow;
+        if w < a {
+            (cap, 1, w)
+        } else {
+            (cap, 2, w - a)
+        }
+    } else if e < 2 * shallow + 2 * deep {
+        let w = e - 2 * shallow;
+        (1 + (w / deep) as usize, 3, w % deep)
+    } else {
+        return None;
+    };
+    let mut syms = vec![];
+    for _ in 0..depth {
+        syms.push(c04_sym(idx % a));
+        idx /= a;
+    }
+    Some((cap, syms))
+}
+
 pub fn run(ctx: &RunCtx, flavor: Flavor) -> Report {
     let mut report = Report::default();
     let mut rng = Rng::new(ctx.seed);
     let mut cfg = rng.fork("cfg");
+    let enumerated: Option<(usize, Vec<C04Sym>)> = if flavor == Flavor::C04 && ctx.index % 2 == 1 { c04_enumerated(ctx.index / 2) } else { None };
 
     // ---- swarm configuration
     let net = NetCfg {
@@ -630,6 +682,8 @@ pub fn run(ctx: &RunCtx, flavor: Flavor) -> Report {
         slow_extra_ms: (100, 2500),
         ..NetCfg::default()
     };
+    // enumerated histories are delivered in order, once each
+    let net = if enumerated.is_some() { NetCfg { dup_ppm: 0, slow_ppm: 0, drop_ppm: 0, ..net } } else { net };
     let sim = Sim::new(ctx.seed, net.clone());
     sim.set_snap_mode(SnapMode::OnConsume);
     let public = cfg.chance(1, 2);
@@ -656,6 +710,9 @@ pub fn run(ctx: &RunCtx, flavor: Flavor) -> Report {
                 1 => 2,
                 _ => dht::MAX_VALUES,
             };
+            if let Some((cap, _)) = &enumerated {
+                settings.max_mutable_values = *cap;
+            }
         }
         Flavor::C15 => {}
     }
@@ -817,8 +874,14 @@ pub fn run(ctx: &RunCtx, flavor: Flavor) -> Report {
             }
         }
     };
+    let depth = enumerated.as_ref().map(|e| e.1.len()).unwrap_or(depth);
     report.elements = depth;
     let mut plan: Vec<String> = vec![];
+    if let Some((cap, syms)) = &enumerated {
+        plan.push(format!("enumerated history #{} (capacity {cap}): {syms:?}", ctx.index / 2));
+        report.probe("enumerated_histories", 1);
+        report.probe(&format!("enumerated_histories_depth_{}", syms.len()), 1);
+    }
     plan.push(format!(
         "server {server_addr} ppm={} wall_offset_us={} caps(ih={},peers={},imm={},mut={}) veto={veto:?} clients={:?} net(dup={},slow={},drop={})",
         sim.node_spec(server).clock_ppm,
@@ -865,6 +928,7 @@ pub fn run(ctx: &RunCtx, flavor: Flavor) -> Report {
             (_, 1) => r.range(600, 1300) * SEC,
             _ => r.range(5, 1500) * MS,
         };
+        let gap = if enumerated.is_some() { r.range(5, 50) * MS } else { gap };
         // C15, 1 run in 4: the node "keeps receiving requests" during long gaps - but only pings and
         // find_nodes, which neither issue nor check tokens (every 20..120 s)
         if keepalive && gap > 60 * SEC {
@@ -912,8 +976,9 @@ pub fn run(ctx: &RunCtx, flavor: Flavor) -> Report {
             plan.push(format!("op[{i}] flood of {n} put_immutable with guessed tokens from {}", clients[fc].addr));
         }
         let ci = r.usize(0, clients.len() - 1);
+        let ci = if enumerated.is_some() { 0 } else { ci };
         // most writers look up first (token acquisition), like a real client
-        if clients[ci].tokens.is_empty() && r.chance(3, 4) {
+        if clients[ci].tokens.is_empty() && (r.chance(3, 4) || enumerated.is_some()) {
             let c = &mut clients[ci];
             c.next_tid += 1;
             let t = r.id();
@@ -929,6 +994,7 @@ pub fn run(ctx: &RunCtx, flavor: Flavor) -> Report {
             Flavor::C15 => 10,
             _ => 14,
         });
+        let tok_choice = if enumerated.is_some() { 13 } else { tok_choice };
         let own: Vec<(Vec<u8>, u64)> = clients[ci].tokens.clone();
         let (token, tok_label): (Vec<u8>, &str) = match tok_choice {
             0 => (own.first().map(|t| t.0.clone()).unwrap_or_default(), "oldest-own"),
@@ -971,7 +1037,23 @@ pub fn run(ctx: &RunCtx, flavor: Flavor) -> Report {
         c.next_tid += 1;
         let tid = if r.chance(1, 5) { ((c.next_tid & 0xffff) as u16).to_be_bytes().to_vec() } else { krpc::tid_bytes(c.next_tid) };
         let kind_roll = r.below(100);
-        let (bytes, label): (Vec<u8>, String) = {
+        let (bytes, label): (Vec<u8>, String) = if let Some((_, syms)) = &enumerated {
+            match syms[i] {
+                C04Sym::Put { key, seq, cas, val } => {
+                    let k = &keys[key];
+                    let target = krpc::mutable_target(&k.verifying_key().to_bytes(), None);
+                    let item = Item::signed(k, None, seq, &values[val]);
+                    (
+                        krpc::query(&tid, "put", krpc::put_mutable_args(&c.id, &target, &item.v, &item.k, &item.sig, seq, cas, None, &token), &opts),
+                        format!("put_mutable {} key{key} seq={seq} cas={cas:?} v=v{val} token={tok_label}", hex8(&target)),
+                    )
+                }
+                C04Sym::Get { key, filter } => {
+                    let target = krpc::mutable_target(&keys[key].verifying_key().to_bytes(), None);
+                    (krpc::query(&tid, "get", krpc::get_args(&c.id, &target, filter), &opts), format!("get mutable {} seq={filter:?}", hex8(&target)))
+                }
+            }
+        } else {
             let read_share = match flavor {
                 Flavor::C03 => 35,
                 Flavor::C04 => 35,
@@ -1146,7 +1228,7 @@ pub fn run(ctx: &RunCtx, flavor: Flavor) -> Report {
                 }
             }
         };
-        let dst = if other_server.is_some() && r.chance(1, 12) { sim.node_addr(other_server.unwrap()) } else { server_addr };
+        let dst = if other_server.is_some() && r.chance(1, 12) && enumerated.is_none() { sim.node_addr(other_server.unwrap()) } else { server_addr };
         plan.push(format!("[{i}] t={:.3}s client{ci}({}) -> {dst}: {label}", now as f64 / SEC as f64, c.addr));
         sim.raw_send(c.addr, dst, bytes);
         // to the other server: always a plain get to collect a foreign token
